@@ -51,6 +51,8 @@ var Valid = []Doc{
 	{"image/svg+xml", "<svg xmlns=\"http://www.w3.org/2000/svg\" version=\"1.1\"> <g> <path d=\"M 10 10 L 20 20 L 30 30 Z\" fill=\"#ff0000\"/> </g> </svg>"},
 	{"image/svg+xml", "<svg><style> a { fill : red } </style><rect x=\"0px\" y=\"0\" width=\"10.0\" height=\"5e0\" style=\"fill : blue\"/><!-- c --></svg>"},
 	{"image/svg+xml", "<?xml version=\"1.0\"?><svg><text> a  b </text><metadata>m</metadata><circle r=\"1\"/></svg>"},
+	{"image/svg+xml", "<svg><path d=\"M0 0L1 1\"/></svg><?xml-stylesheet href=\"a\"?><!-- c -->"},
+	{"text/xml", "<a>t</a><?p d?><!-- c -->"},
 	{"text/xml", "<?xml version=\"1.0\" ?><a b=\"c\" d='e'> <f> g  h </f> <i/> <![CDATA[ x < y ]]> <!-- c --> </a>"},
 	{"text/xml", "<!DOCTYPE a [ <!ENTITY e \"v\"> ]><a>&e; &amp; &#65;<b></b></a>"},
 	{"text/xml", "<a  x = \"1\"   y = '&quot;' ><b>t</b><b>u</b></a>"},
